@@ -77,7 +77,7 @@ def run(ctx):
 
     # ---- 3. fault sequences = behaviours of the specification
     gens = ["MC_casesq_single", "MC_casesq_samples2", "MC_casesq_cascade"] if quick else \
-           ["MC_cases_single", "MC_cases_samples2", "MC_cases_cascade"]
+           ["MC_cases_single", "MC_cases_samples2", "MC_casesq_cascade"]
     rng = random.Random(ctx.seed)
     cases = []
     for cfg in gens:
@@ -91,9 +91,9 @@ def run(ctx):
             # cascades need a real clock (about a second each): a seeded sample
             rng.shuffle(cs)
             cs = cs[:160 if quick else 1200]
-        elif not quick and len(cs) > 12000:
+        elif not quick and len(cs) > 9000:
             rng.shuffle(cs)
-            cs = cs[:12000]
+            cs = cs[:9000]
         cases += cs
     # behaviours in which a single attempt times out while the caller still waits (about 1-3 s each)
     r = _tlc_ok(ctx, "MC_cases_timeouts", count=False)
